@@ -1,7 +1,46 @@
-(** C16 - Allocation policies mean what the documentation says; no spurious refusals. *)
-From HQ Require Import Base.Prelude Gen.Consts Alloc.Model Alloc.Spec Alloc.Examples.
+(** C16 - Allocation policies mean what the documentation says; no spurious refusals.
+    Only statements closed by [exact]; the proofs live in HQ.Alloc.GroupsProofs. *)
+From HQ Require Import Base.Prelude Gen.Consts Alloc.Model Alloc.Spec Alloc.Lemmas Alloc.GroupsProofs Alloc.Examples.
+Open Scope N_scope.
 
-Theorem C16_example_run : exists s, ex_final = Ok s /\ s_live s = [].
-Proof. exact ex_run_ok. Qed.
+(** The reference [min_groups] is the true minimum number of groups that can hold (units, fraction):
+    some set of that many groups is sufficient and no sufficient set is smaller; None iff no set is. *)
+Theorem C16_min_groups_correct : forall per units fr,
+  match min_groups per units fr with
+  | Some k =>
+      (exists m, In m (sublists (full_mask per)) /\ sufficient per units fr m = true /\ len m = k)
+      /\ (forall m, In m (sublists (full_mask per)) -> sufficient per units fr m = true -> k <= len m)
+  | None => forall m, In m (sublists (full_mask per)) -> sufficient per units fr m = false
+  end.
+Proof. exact min_groups_correct. Qed.
 
-Print Assumptions C16_example_run.
+(** The constraint rows group_solver builds (groups.rs) hold for a selection of groups iff the selected groups
+    can hold the amount: enough whole indices, the fractional remainder from ONE index. *)
+Theorem C16_rows_mean_sufficient : forall per units fr m,
+  mask_feasible per units fr m = sufficient per units fr m.
+Proof. exact rows_mean_sufficient. Qed.
+
+(** full statements that are monitored on every run but not proved (see tools/props/C16.json "partial") *)
+Definition C16_admission_iff_feasible_full : Prop := forall a rq w ok yard,
+  mirror_ok (a_pools a) (a_free a) = true ->
+  forallb (fun e => negb (is_forced (e_req e))) rq = true ->
+  has_resources a rq w = Ok (ok, yard) -> ok = request_fits (a_pools a) rq.
+Definition C16_strict_sound_full : Prop := forall pools0 before e ra,
+  (* for a granted strict entry *) is_forced (e_req e) = true -> group_count_ok pools0 before e ra = true.
+Definition C16_claim_follows_policy_full : Prop := forall before e ra,
+  scatter_ok before e ra = true /\ compact_even_ok before e ra = true /\ tight_ok before e ra = true.
+
+(** the repaired strict admission: the scenario of corpus/alloc/strict-tiebreak-refusal.trace is granted *)
+Theorem C16_strict_fix_example :
+  exists s, (do s0 <- init ex_strict_desc; run s0 ex_strict_ops) = Ok s /\ length (s_live s) = 2%nat.
+Proof. exact ex_strict_granted. Qed.
+
+Theorem C16_min_groups_example :
+  min_groups [(2, 0); (1, 5000); (3, 0)] 2 2500 = Some 1
+  /\ min_groups [(2, 0); (1, 5000); (3, 0)] 3 7500 = Some 2
+  /\ min_groups [(2, 0); (1, 5000); (3, 0)] 7 0 = None.
+Proof. exact min_groups_example. Qed.
+
+Print Assumptions C16_min_groups_correct.
+Print Assumptions C16_rows_mean_sufficient.
+Print Assumptions C16_strict_fix_example.
